@@ -3,13 +3,15 @@ CONSTANTS
   MODE = "matrix"
   SEED = 1
   T1 = 4
-  T2 = 3
+  T2 = 2
   T3 = 1
   NS2 = 200
-  NS3 = 300
+  NS3 = 100
   NSBIG = 40
   NCAP = 30
+  HOF = 2
   MAXD = 1
+  MAXDSLOW = 1
   LEN = 1
   MUTANT = FALSE
 INVARIANTS TypeOK Emit Proto
